@@ -36,6 +36,8 @@ def menu(d):
     M["bad_after_idx"] = ("loads", H + "float array A =\n    5, 6\nint n = 1\nG(A[n]) | 0\nG(u) | 0\n")
     M["bad_after_idx_loop"] = ("loads", H + "int array A =\n    4, 3, 2, 1\nfor int i in 0:4\n    G(A[i]) | A[i]\nG | 0.5\n")
     M["ok_tmpl"] = ("loads", H + "G({n}, {q}) | 0\n")
+    M["ok_tmpl_globals"] = ("loads", H + "G({np}, {Symbol}+{sym}, k={os}) | 0\nH({copy}*2, {re}, {antlr4}, {var}) | 1\n")
+    M["ok_arith"] = ("loads", H + "float y = 2*pi+sqrt(2)/3\nG(y**2, -y, q0*2) | 0\n")
     M["ok_tmpl_var"] = ("loads", H + "float x = {n}\nfloat array A[1, 2] =\n    {P}\nG(x, A) | 0\n")
     M["ok_loop"] = ("loads", H + "for int i in 0:2\n    G(i) | i\n")
     M["ok_tdm"] = ("loads", H + "type tdm (k=1)\nint array p0 =\n    1, 2\nG(p0) | 0\n")
